@@ -343,6 +343,9 @@ func FieldMenu() []FieldVariant {
 	add("F29-override-the-protobuf-key", "PbKey string `"+pbTag+"` // @tag valid:\"required\" protobuf:\"bytes,1,req,name=name\"", true)
 	add("F29-override-every-existing-key", "AllKeys string `"+pbTag+"` // @tag json:\"n\" protobuf:\"bytes,2,opt,name=n\"", true)
 	// keys that are a suffix / prefix of another key, same value: key matching must be on whole keys
+	// an existing key the annotation does not mention whose value holds what a regexp template would expand (round 13)
+	add("F30-existing-value-with-dollar-templates", "Price string `layout:\"$${amount} USD $$x\" json:\"price\"` // @tag valid:\"required\"", true)
+	add("F30-existing-value-with-dollar-templates-overridden-neighbour", "Fee string `json:\"fee\" fmt:\"$$fee and $$ and $${1}0 $name ${1}\"` // @tag json:\"fee_cents\" valid:\"ge=$1\"", true)
 	add("F17-key-suffix-of-existing", "KeySuffix string `binding_valid:\"required\" json:\"ks\"` // @tag valid:\"required\"", true)
 	add("F17-key-prefix-of-existing", "KeyPrefix string `json:\"kp\" validx:\"required\"` // @tag valid:\"required\" json:\"kp\"", true)
 	add("F18-value-held-by-other-key", "OtherKey string `xvalid:\"a\" valid:\"b\"` // @tag valid:\"a\"", true)
